@@ -298,6 +298,7 @@ class Ctx:
         self._fresh = 0
         self._divcache: Dict[Any, Any] = {}
         self.sigf: Any = None
+        self._model: Any = None  # a model of the current path condition, if one is known
         self.failure_counts: Dict[str, int] = {}
         self.dump_dir: Optional[str] = None  # second-solver cross check: obligations written as SMT-LIB2
         self.dump_limit = 0
@@ -346,12 +347,22 @@ class Ctx:
             raise HarnessError(f"solver returned unknown: {self.solver.reason_unknown()}")
         return str(r)
 
+    def _check_keep(self, e: Any) -> bool:
+        """feasibility of e under the path condition; keeps the model as a witness for later branch decisions"""
+        r = self._check(e)
+        if r == "sat":
+            self._model = self.solver.model()
+            return True
+        return False
+
     def _level(self, cons: Any) -> None:
         """Account for the decision at self.pos (constraint `cons` or None)."""
         if self.pos >= self.depth:
             self.solver.push()
             if cons is not None:
                 self.solver.add(cons)
+                if self._model is not None and not z3.is_true(self._model.eval(cons, model_completion=True)):
+                    self._model = None
             self.depth += 1
         self.pos += 1
         if self.pos > self.max_depth:
@@ -375,8 +386,19 @@ class Ctx:
                 )
             self._level(e if d.val else z3.Not(e))
             return bool(d.val)
-        t = self._check(e) == "sat"
-        f = self._check(z3.Not(e)) == "sat"
+        # one of the two sides is often already witnessed by the last model: evaluate before asking the solver
+        t = f = None
+        m = self._model
+        if m is not None:
+            v = m.eval(e, model_completion=True)
+            if z3.is_true(v):
+                t = True
+            elif z3.is_false(v):
+                f = True
+        if t is None:
+            t = self._check_keep(e)
+        if f is None:
+            f = self._check_keep(z3.Not(e))
         if t and f:
             d = Dec("b", 1, 1, tag)
         elif t:
